@@ -190,8 +190,19 @@ def child(case):
         c['history_sets_compared'] = c.get('history_sets_compared', 0) + 1
         bad = [kk for kk in keys if mid[kk] != before[kk]]
         if bad:
-            viol('compaction/history-changed', f'after {mode} compaction (stop after batch {k}) the history of {len(bad)} script hash(es) changed, '
-                 f'e.g. {bad[0].hex()}: {len(before[bad[0]])} -> {len(mid[bad[0]])} entries', {'hashX': bad[0]})
+            key = 'compaction/history-changed'
+            final_rows = max((-(-len(before[kk]) // rows) for kk in keys), default=0)      # rows per script after compaction
+            if mode == 'kill-before-set-flush-count' and final_rows - 1 > before['_utxo_flush_count']:
+                # the completed compaction left the history flush count (= highest compacted row id) above the flush count
+                # still recorded in the UTXO DB; the next open takes that for an unclean shutdown and deletes the "excess" rows
+                key = 'compaction/kill-before-set-flush-count/compacted-rows-exceed-flush-count'
+            viol(key, f'after {mode} compaction (stop after batch {k}) the history of {len(bad)} script hash(es) changed, '
+                 f'e.g. {bad[0].hex()}: {len(before[bad[0]])} -> {len(mid[bad[0]])} entries (compacted rows per script up to {final_rows}, '
+                 f'UTXO-DB flush count {before["_utxo_flush_count"]})', {'hashX': bad[0]})
+            if key != 'compaction/history-changed':
+                c['known_mechanism_cases_follow_up_skipped'] = 1
+                out['sigs'].append(digest((case['dbid'], rows, case.get('batch_limit', 1), mode, k)))
+                return out
         if mode in ('resume', 'kill-resume'):
             nb2, done2 = run_compaction(dbdir, w, case)
             c['resumed_batches'] = nb2
